@@ -248,6 +248,7 @@ def eval_polygon(ctx, case):
     m = model_polygon(ctx, case, case["vertices"], case.get("normal"), ptol)
     if m is None:
         ctx.skipped_near_boundary += 1
+        ctx.count("skip:polygon-tolerance-boundary")
         return
     ok = compare_decision(ctx, "c15.polygon", case, impl, m[0])
     if ok and impl[0] == "ok" and m[1] is not None:
@@ -467,6 +468,7 @@ def eval_convex_polygon(ctx, case):
     pre = model_polygon(ctx, case, case["vertices"], case.get("normal"), ptol, test_simple=False)
     if pre is None:
         ctx.skipped_near_boundary += 1
+        ctx.count("skip:polygon-tolerance-boundary")
         return
     if pre[0] != "ok":
         compare_decision(ctx, "c15.convexpolygon", case, impl, pre[0])
@@ -481,6 +483,7 @@ def eval_convex_polygon(ctx, case):
         hc = len(ConvexHull(al[:, :2]).vertices)
     except Exception:
         ctx.skipped_near_boundary += 1
+        ctx.count("skip:hull-raised")
         return
     try:
         if has_r:
@@ -500,6 +503,7 @@ def eval_convex_polygon(ctx, case):
     gaps = np.diff(np.r_[ang, ang[0] + 2 * np.pi])
     if np.min(gaps) < 1e-7:
         ctx.skipped_near_boundary += 1
+        ctx.count("skip:angle-tie")
         return
     if not np.array_equal(mv, np.array(poly.vertices)):
         ctx.disagree(op + ":order", case, [mv.tolist(), np.array(poly.vertices).tolist()])
